@@ -86,5 +86,3 @@ func runTrace(c *eng.Ctx, cf cfg) {
 		}, eops, what)
 	}
 }
-
-var _ = eng.Pick[int]
